@@ -141,12 +141,12 @@ CHECKS = {
         note="Bounds: 2-4 keys, 1-2 origins, 2-4 time values, 2-5 requests, bulk size 2-3, one configuration starting on a storage that already holds tombstones; failed bulk calls report their successful ids in no particular order. MemStore behind the fault wrapper; backends' own fidelity is C17."),
     "C07": dict(
         engine="tlc + h-ec",
-        technique="TLC exhaustive model checking of Keyspace.tla with crash points after and inside requests + edge-complete replay (real group abandoned, load_states_from_storage on the same storage)",
+        technique="TLC exhaustive model checking of Keyspace.tla with crash points after and inside requests + edge-complete replay (real group abandoned, load_states_from_storage on the same storage) + TLC trace validation of restarts and of kills at a random moment (SIGKILL) on SQLite / LMDB",
         text=("Same model as C02 with Crash after any request and between the storage write and the set update of a single request, followed by Restart = "
               "load_states_from_storage. TLC checks that the rebuilt set is exactly what storage holds and that every acknowledged mutation is still "
               "visible; every crash edge is reproduced on the real code with a storage wrapper that parks the call after the inner write."),
         design_ref="DESIGN.md section 7 C07",
-        note="Crash inside bulk requests is not modelled (single requests only); persistent backends' reopen is covered by C17; convergence after restart by C01. After every request the node is also started with a storage read error (keyspace list / metadata scan, action FailedStart): the start must be refused, or what it built must be what storage holds."),
+        note="Crash inside bulk requests is not enumerated in the model (single requests only) but exercised on the persistent backends: a real group over SQLite (file) / LMDB is killed (SIGKILL) at a random moment, between two requests or inside one (bulk requests of up to 3 000 documents), and a fresh process rebuilds; Trace_Crash.tla judges the rebuilt set against the storage's metadata scan and against the try / ack log of the killed writer (SIGKILL keeps what the OS has; power loss is out of reach). Persistent backends' reopen is covered by C17; convergence after restart by C01. After every request the node is also started with a storage read error (keyspace list / metadata scan, action FailedStart): the start must be refused, or what it built must be what storage holds."),
     "C19": dict(
         engine="tlc + h-ec",
         technique="TLC-generated population of set states (MC_OrswotOps state graph) transferred through the real ReplicationService/ReplicationClient; undecodable states injected by a fake server",
